@@ -5,7 +5,9 @@ package main
 // lock-free fast paths, sync.Map caches and big.Float.SetString.
 
 import (
+	"go/types"
 	"math/big"
+	"strconv"
 	"strings"
 
 	"golang.org/x/tools/go/ssa"
@@ -386,6 +388,31 @@ func registerModels2(e *Engine) {
 			cut("big.Float.SetMantExp")
 		}
 		return setc(st, a[0].(PtrVal), z.SetMantExp(m, ex))
+	}
+	// strconv.ParseFloat on a concrete literal runs natively (decimal to binary
+	// conversion cannot be encoded); a symbolic literal ends the path as a cut.
+	ic["strconv.ParseFloat"] = func(e *Engine, st *State, fr *Frame, in ssa.CallInstruction, a []Val) Val {
+		str, ok := a[0].(StrVal).goString()
+		bits, ok2 := concInt(a[1])
+		if !ok || !ok2 {
+			cut("strconv.ParseFloat")
+		}
+		f, err := strconv.ParseFloat(str, bits)
+		res := ConstF64(f)
+		if err == nil {
+			return TupleVal{[]Val{res, IfaceVal{}}}
+		}
+		sentinel := "ErrSyntax"
+		if ne, ok := err.(*strconv.NumError); ok && ne.Err == strconv.ErrRange {
+			sentinel = "ErrRange"
+		}
+		sp := e.prog.ImportedPackage("strconv")
+		nt := sp.Type("NumError").Type()
+		z := e.zero(nt).(StructVal)
+		z.f[0] = constStr("ParseFloat")
+		z.f[1] = a[0]
+		z.f[2] = e.load(st, e.globalPtr(st, sp.Var(sentinel)).(PtrVal))
+		return TupleVal{[]Val{res, IfaceVal{t: types.NewPointer(nt), v: PtrVal{obj: st.alloc(z)}}}}
 	}
 	_ = strings.HasPrefix
 }
